@@ -12,6 +12,7 @@ import (
 	"pgregory.net/rapid"
 
 	"verif/harness/gen"
+	"verif/harness/ref"
 	"verif/harness/stats"
 )
 
@@ -339,4 +340,21 @@ func checkPaths(rt *rapid.T, cols []colSpec, rows int) {
 			return map[string]any{"kind": "path-equivalence", "types": typeNames(cols), "rows": rows, "rev": rev, "sink_writes": s.calls}
 		})
 	}
+}
+
+// TestEveryKindC14 (run with a small -rapid.checks; outside the ^TestC14 pattern): the
+// vectored path against the buffered one for every kind of the catalog.
+func TestEveryKindC14(t *testing.T) {
+	rapid.Check(t, func(rt *rapid.T) {
+		salt := rapid.IntRange(1, 1<<20).Draw(rt, "salt")
+		for ki, k := range gen.Kinds {
+			rows := []int{3, 1, 0, 5}[(ki+salt)%4]
+			var kv []ref.Val
+			for i := 0; i < rows; i++ {
+				kv = append(kv, k.Value.Example(salt+13*ki+i))
+			}
+			checkPaths(rt, []colSpec{{Name: "k", Kind: k, Rows: kv}}, rows)
+		}
+		stats.G().Exhaustive(fmt.Sprintf("every one of the %d catalog kinds through both write paths", len(gen.Kinds)))
+	})
 }
